@@ -4,6 +4,12 @@ import json
 claims=json.load(open('/verif/specs/claims.json'))
 na=json.load(open('/verif/specs/not_applicable.json'))
 base=json.load(open('/root/.vp/BASELINE.json'))
+import subprocess
+na={k:v for k,v in na.items() if k not in claims}
+json.dump(na,open('/verif/specs/not_applicable.json','w'),indent=1)
+hooks=subprocess.run(['git','-C','/repo','log','--reverse','--grep','^verif hooks','--format=%H'],capture_output=True,text=True).stdout.split()
+if hooks:
+    json.dump(hooks,open('/verif/specs/hook_commits.json','w'))
 checks=[]
 for pid in sorted(claims):
     c=claims[pid]
